@@ -285,10 +285,6 @@ func verifyCode(r *verifyReport, c *py.Code, nlines int) *codeReport {
 			r.errf(c, s.pc, "stack depth %d exceeds declared stacksize %d (stack %q)", d, c.Stacksize, s.stack)
 			continue
 		}
-		if len(s.blocks) > py.CO_MAXBLOCKS {
-			r.errf(c, s.pc, "block depth %d exceeds CO_MAXBLOCKS", len(s.blocks))
-			continue
-		}
 		m := cr.predicted[s.pc]
 		if m == nil {
 			m = map[depthPair]bool{}
